@@ -203,6 +203,11 @@ class TU:
             return ("lambda", tuple(caps), tuple(body))
         if k == "CompoundLiteralExpr" and inner:
             return self._expr(inner[0])
+        if k == "StmtExpr" and inner and inner[0].get("kind") == "CompoundStmt":
+            # GNU statement expression ({ ...; value; }) -- the macro form of intrinsics with immediates
+            return ("stmtexpr", tuple(self._block(inner[0])))
+        if k == "ShuffleVectorExpr":
+            return ("shufflevector", tuple(self._expr(a) for a in inner))
         return ("other", k)
 
     # ---- statements
